@@ -32,6 +32,7 @@ Case split (environment, concrete per condition):
   XH_REAL_ENGINE=1  keep uberjob's real thread engine (used only by the concrete stub validation)
 """
 import itertools
+import math
 import os
 
 import world as W
@@ -578,4 +579,61 @@ def c02_unpack(n: int, m: int, kind: int, x0: int, x1: int, x2: int, x3: int, x4
     for i in range(N):
         if not (got[i] is items[i] or got[i] == items[i]):
             return False
+    return ok()
+
+
+# =============================================================================== (4) equal-but-distinct constants
+CONSTS = [1, True, 1.0, 0, False, 0.0, -0.0, "a", b"a", (1,), (True,), (1.0,), None, 2]
+
+
+def _exact(x, y):
+    """Same value AND same type, recursively (1 / True / 1.0 are three different constants; 0.0 / -0.0 differ by sign)."""
+    if type(x) is not type(y):
+        return False
+    if type(x) is tuple or type(x) is list:
+        return len(x) == len(y) and all(_exact(p, q) for p, q in zip(x, y))
+    if type(x) is float:
+        return x == y and math.copysign(1.0, x) == math.copysign(1.0, y)
+    return x == y  # (no repr(): CrossHair turns the repr of a number into a symbolic string and the comparison into a string query)
+
+
+CSCOPED = os.environ.get("XH_CSCOPED", "0") == "1"
+
+
+def c02_consts(i: int, j: int) -> bool:
+    """
+    Constants that compare (and hash) equal but are different values -- 1 / True / 1.0, 0 / False / 0.0 / -0.0, (1,) / (True,) --
+    passed as plain arguments of one call and of a second call of the same plan (same scope, or a nested scope): every call
+    receives exactly the constant that was written at its call site (value and type), as direct evaluation does.
+
+    pre: 0 <= i < 14 and 0 <= j < 7
+    post: _
+    """
+    begin()
+    scoped = CSCOPED
+    ci, cj = CONSTS[_pick(i, 14)], CONSTS[_pick(j, 7)]
+    ck = cj
+
+    def f(*a):
+        return tuple(a)
+
+    plan = Plan()
+    a = plan.call(f, ci, cj)
+    if scoped:
+        with plan.scope("s"):
+            b = plan.call(f, ck, ci)
+    else:
+        b = plan.call(f, ck, ci)
+    c = plan.call(f, [cj, ck], {"k": ci})
+    got = uberjob.run(plan, output=[a, b, c], **RUN_KW)
+    want = [f(ci, cj), f(ck, ci), f([cj, ck], {"k": ci})]
+    if type(got) is not list or len(got) != 3:
+        return False
+    if not _exact(got[0], want[0]) or not _exact(got[1], want[1]):
+        return False
+    g2, w2 = got[2], want[2]
+    if type(g2) is not tuple or len(g2) != 2 or not _exact(g2[0], w2[0]):
+        return False
+    if type(g2[1]) is not dict or list(g2[1]) != ["k"] or not _exact(g2[1]["k"], w2[1]["k"]):
+        return False
     return ok()
